@@ -25,6 +25,7 @@ type hist struct {
 	mutBlobs []int
 	tokKey   map[int]int // token slot -> issuer key slot
 	az       []ref.Authz
+	base     []string // caller-supplied base symbol table of this history (nil = default)
 }
 
 func newHist(r *rand.Rand, nIssuers int, withIDs bool) *hist {
@@ -49,6 +50,17 @@ func newHist(r *rand.Rand, nIssuers int, withIDs bool) *hist {
 		}
 	}
 	h.attacker = h.key(true)
+	if r.Intn(6) == 0 {
+		// issuer and readers agreed on a base symbol table of their own (WithSymbols / Unmarshaler.Symbols)
+		pool := []string{"tenant-a", "zone", "eu-west", "quota", "svc/backend", h.g.Strs[0], "shared symbol"}
+		seen := map[string]bool{}
+		for _, i := range r.Perm(len(pool))[:2+r.Intn(3)] {
+			if !seen[pool[i]] && pool[i] != "" {
+				seen[pool[i]] = true
+				h.base = append(h.base, pool[i])
+			}
+		}
+	}
 	for i := 0; i < 1+r.Intn(2); i++ {
 		h.az = append(h.az, h.g.Authz(3, 2, 2, 2, 0))
 	}
@@ -60,10 +72,10 @@ func (h *hist) pick(xs []int) int { return xs[h.r.Intn(len(xs))] }
 func (h *hist) issue() int {
 	k := h.pick(h.issuers)
 	via := ""
-	if h.r.Intn(5) == 0 && h.ids[k] == nil {
+	if h.r.Intn(5) == 0 && h.ids[k] == nil && len(h.base) == 0 {
 		via = "new"
 	}
-	t := h.add(vm.Op{K: "build", Via: via, A: k, Blk: blkp(h.g.Block(4, 2, 2)), Ent: entropy(h.r), RootID: h.ids[k], Out: h.slot()})
+	t := h.add(vm.Op{K: "build", Via: via, A: k, Blk: blkp(h.g.Block(4, 2, 2)), Ent: entropy(h.r), RootID: h.ids[k], Base: h.base, Out: h.slot()})
 	h.toks = append(h.toks, t)
 	h.honest = append(h.honest, t)
 	h.tokKey[t] = k
